@@ -53,7 +53,7 @@ CHECKS = {
             "1.3 to 2.4 million IR instructions per run). A task fixes a program within the limits and ONE rendering (white space, comments, nu-prefixes, $variables, hex case/separators, optional last semicolon; seeded generator); the solver decides over the symbolic bytes inside it: "
             "every label character (upper-case letters / all other printable ASCII but the structural characters; a symbolic two-byte character; symbolic decimal digits after alpha), every hex digit within its range, white-space characters over {space, tab, LF, CR}. "
             "The same pre-state receives the corresponding add/bind/put/next_id calls with labels and data built from the same variables: abstract post-states equal for all values, count == number of commands. "
-            "Single fault: one ASCII byte of a concrete rendering ranges over every other ASCII value; no path may panic on a malformed witness or within the limits, malformed witnesses return Err on the whole path with the post-state of the commands before the fault.", "4 C14"),
+            "Single fault: one ASCII byte of a concrete rendering ranges over every other ASCII value; no path may panic on a malformed witness or within the limits, malformed witnesses return Err on the whole path with the post-state of the commands before the fault (the allocator position may have advanced).", "4 C14"),
     'C13': ("model_checking", "slice(v) and slice_some(v, p) executed on the LLVM IR (-Zbuild-std: std's HashSet/hashbrown with concrete keys, emap's iterator, the real empty/add/bind). The edge structure of the source (targets per vertex) "
             "is a task -- quick: ALL 343 structures of three vertices with up to two edges each plus 45 of four vertices; labels, data and the predicate are symbolic: the external symbol the closure forwards to answers with one solver variable per "
             "source edge, the real code branches on it. Every path: Ok; present vertices of the result == closure of v under accepted edges (a fixpoint formula over the predicate variables); every accepted edge between kept vertices is there; "
